@@ -1361,3 +1361,59 @@ pub mod witness_c15 {
         bad
     }
 }
+
+#[cfg(not(kani))]
+pub mod witness_c06dur {
+    use super::super::Store;
+    use crate::{Author, NamespaceSecret};
+
+    /// C06 (flush is durable): whatever the first access after a commit was (a read or a write), what is there at a flush is in the
+    /// database FILE after the flush: a copy of the file taken right after it, opened as a store, shows the entry.
+    pub fn run() -> bool {
+        let dir = std::env::temp_dir().join(format!("verif-c06dur-{}", std::process::id()));
+        let _ = std::fs::remove_dir_all(&dir);
+        std::fs::create_dir_all(&dir).unwrap();
+        let mut bad = false;
+        for read_first in [true, false] {
+            let path = dir.join(format!("docs-{read_first}.redb"));
+            let copy = dir.join(format!("copy-{read_first}.redb"));
+            let ns = NamespaceSecret::from_bytes(&[71u8; 32]);
+            let author = Author::from_bytes(&[72u8; 32]);
+            let id = ns.id();
+            {
+                let mut store = Store::new_impl(redb::Database::create(&path).unwrap()).unwrap();
+                store.import_namespace(ns.clone().into()).unwrap();
+                store.flush().unwrap();
+                if read_first {
+                    // the first access after the commit is a read
+                    let _ = store.get_exact(id, author.id(), b"nothing", false).unwrap();
+                }
+                {
+                    let mut replica = store.open_replica(&id).unwrap();
+                    let (h, l) = (crate::verif_incrate::Hash::new(b"flushed"), 7u64);
+                    crate::verif_incrate::witness::block_on(replica.insert(b"k", &author, h, l)).unwrap();
+                }
+                store.close_replica(id);
+                store.flush().unwrap();
+                // the process "dies" here: only what is in the file counts
+                std::fs::copy(&path, &copy).unwrap();
+                std::mem::forget(store);
+            }
+            match redb::Database::create(&copy).map_err(anyhow::Error::from).and_then(Store::new_impl) {
+                Ok(mut reopened) => {
+                    let there = reopened.get_exact(id, author.id(), b"k", false).map(|e| e.is_some()).unwrap_or(false);
+                    if !there {
+                        eprintln!("c06dur: the entry flushed before the crash is missing from the file (first access after the commit was a {})", if read_first { "read" } else { "write" });
+                        bad = true;
+                    }
+                }
+                Err(e) => {
+                    eprintln!("c06dur: the copy of the flushed file does not open: {e}");
+                    bad = true;
+                }
+            }
+        }
+        let _ = std::fs::remove_dir_all(&dir);
+        bad
+    }
+}
